@@ -20,6 +20,7 @@ import (
 	"sort"
 	"strings"
 
+	"golang.org/x/tools/go/ast/astutil"
 	"golang.org/x/tools/go/packages"
 	"golang.org/x/tools/go/ssa"
 	"golang.org/x/tools/go/ssa/ssautil"
@@ -562,6 +563,36 @@ func rewriteConsts(path string, repl map[string]string, used map[string]int) ([]
 		}
 		return true
 	})
+	// "lit:<expr>" keys: rewrite a literal expression inside a function body (e.g. the 8<<10 sync/async threshold), matched
+	// by its printed form
+	lits := map[string]string{}
+	for k, v := range repl {
+		if strings.HasPrefix(k, "lit:") {
+			lits[k[4:]] = v
+		}
+	}
+	if len(lits) > 0 {
+		astutil.Apply(f, func(c *astutil.Cursor) bool {
+			e, ok := c.Node().(ast.Expr)
+			if !ok {
+				return true
+			}
+			if _, isBin := e.(*ast.BinaryExpr); !isBin {
+				return true
+			}
+			if r, ok := lits[types.ExprString(e)]; ok {
+				ne, err := parser.ParseExpr(r)
+				if err != nil {
+					panic(err)
+				}
+				c.Replace(ne)
+				used["lit:"+types.ExprString(e)]++
+				changed = true
+				return false
+			}
+			return true
+		}, nil)
+	}
 	if !changed {
 		return nil, false, nil
 	}
